@@ -6,6 +6,29 @@ IDS = ['C%02d' % i for i in range(1, 21)]
 NOT_APPLICABLE = {  # property -> reason, used only while no harness/<id>/spec.py exists (or the spec sets CLAIMED = False)
  'C14': 'not applicable to solver-based checking of the real code within reach: the property is about io.c orchestrating fd_entries, streams, operations, sources, groups and several queues driven by kernel readiness (2800 lines, 66 block literals, every step a hop through the queue machinery); the byte-accounting kernel (_dispatch_operation_perform / _deliver_data) is entangled with channel, fd_entry, data and queue objects and could not be isolated soundly in the time available (see DESIGN.md section 4)',
 }
+BASE_T = 'bounded symbolic execution of the real code (clang-14 LLVM IR of /repo sources -> flat-memory C, tools/ir2flat.py) decided by cbmc 6.11 (SAT, cadical): every harness assertion holds for all values of the symbolic inputs within the stated bounds; counterexamples are replayed natively. '
+TECH = {
+ 'C01': 'tier S (one state-machine function from every 64-bit state word under bounded interference) + tier H (exhaustive bounded API histories, one query each) + tier Q (sequentialised threads: symbolic schedule of the MPSC push/pop kernel)',
+ 'C02': 'tier S (acquisition paths from every state word; main-queue and exclusive-owner lemmas) + tier H (histories incl. the real thread-bound main queue)',
+ 'C03': 'tier H (exhaustive bounded histories over target-queue hierarchies, LOCK-CHAIN oracle)',
+ 'C04': 'tier S (width algebra from every state word) + tier H (histories with barriers / set_width on a concurrent queue)',
+ 'C05': 'tier H (sync-return oracle) + memory orders read from the executed IR atomics + tier Q (semaphore kernel, symbolic schedule)',
+ 'C06': 'tier S (suspend-count arithmetic from every state word) + tier H (histories)',
+ 'C07': 'tier S (group state word, all 2^64 values, bounded interference; snapshot-interference lemma)',
+ 'C08': 'tier S (per-call permit accounting from every value) + tier Q (2 waiters x 2 signalers, symbolic schedule)',
+ 'C09': 'tier S (gate word) + tier Q (3 callers, symbolic schedule)',
+ 'C10': 'tier H (apply histories with helper scheduling) + tier S (one participant)',
+ 'C11': 'path-wise symbolic execution (cbmc --paths) of one heap operation from an arbitrary valid heap (induction step); cvc5 bit-vectors-as-integers for the firing arithmetic; budgeted depth-first exploration for the root re-arm',
+ 'C12': 'full-width bit-vector equivalence with a 128-bit reference (all 2^128 inputs)',
+ 'C13': 'object-graph shapes with symbolic contents, argument domain enumerated inside each query, object-table memory safety',
+ 'C14': 'tier K: induction (base case + step from an arbitrary symbolic in-flight state satisfying the invariant) over one stream operation',
+ 'C15': 'tier S (merge / latch under injected concurrent merges) + tier H (source histories)',
+ 'C16': 'tier H (cancellation histories through the real API)',
+ 'C17': 'tier H with real reference counting and an object table + tier S reference-accounting lemmas',
+ 'C18': 'symbolic attribute index / identifier (all table entries, all flags) + tier H identity histories incl. the thread-bound main queue',
+ 'C19': 'tier H (block-object histories)',
+ 'C20': 'path-wise symbolic execution (cbmc --paths) of the real transforms on symbolic bytes vs independent reference codecs, object-table memory safety',
+}
 PENDING = 'no solver harness is registered for this property in the committed tree yet (framework under construction; see DESIGN.md section 3 for the planned encoding)'
 def main():
     checks = []; na = []
@@ -19,7 +42,7 @@ def main():
         c = dict(property_id=pid, quick_cmd='./check %s --tier quick' % pid, thorough_cmd='./check %s --tier thorough' % pid,
                  evidence_file='evidence/%s.json' % pid, replay_cmd_template='./check %s --replay {path}' % pid, engine='ir2flat+cbmc',
                  level_claimed=dict(category=getattr(mod, 'LEVEL', 'model_checking'), text=mod.LEVEL_TEXT, design_ref=getattr(mod, 'DESIGN_REF', 'DESIGN.md section 3, ' + pid)),
-                 level_note=mod.LEVEL_NOTE, technique=getattr(mod, 'TECHNIQUE', 'bounded symbolic execution of the real code (clang IR -> flat-memory C) with cbmc; SAT verdict per assertion'))
+                 level_note=mod.LEVEL_NOTE, technique=getattr(mod, 'TECHNIQUE', BASE_T + 'Here: ' + TECH[pid]))
         checks.append(c)
     m = dict(version=1,
              setup_cmd='sh tools/setup.sh',
